@@ -273,7 +273,7 @@ def run(chk):
         return chk.finish(level="proof", rule="driver unavailable")
     drv = Driver()
     thorough = chk.tier == "thorough"
-    dialects = ["ansi", "sparksql", "non-validating"] if thorough else ["ansi"]
+    dialects = ["ansi", "sparksql", "postgres"] if thorough else ["ansi"]
     st = sqlcheck.Stats()
     want = ("tables", "columns", "cyto")
 
@@ -466,7 +466,10 @@ def run(chk):
     chk.assumptions += ["corpus scripts are qualified by a conservative token-level rewriter; the scripts it refuses are skipped and counted",
                         "a column qualifier that names no relation in scope cannot be schema-qualified in SQL text as sqllineage reads it "
                         "(only the last qualifier part is kept): its owner is expected in S, i.e. the partner's placeholder schema is mapped to S",
-                        "S ranges over plain lower-case names (the theorems' `Plain S`); quoted / mixed-case defaults are C16's subject"]
+                        "S ranges over plain lower-case names (the theorems' `Plain S`); quoted / mixed-case defaults are C16's subject",
+                        "generated scripts run under sqlfluff dialects only: the sqlparse analyzer (`non-validating`) loses the sources of "
+                        "`insert into <schema>.<table> (select ...)` whatever the default schema is — a parser-level defect of the QUALIFIED text "
+                        "(C09's subject); one hand-written sqlparse case is kept"]
     return chk.finish(
         level="proof",
         rule="scripts = targeted shapes + enumerate_shapes(1) (sampled in quick) + seeded random scripts of 1-3 statements (queries, INSERT, "
